@@ -151,11 +151,18 @@ def generate(contract: FunctionContract, *, max_paths: int = 20000, scenarios: O
             contract.post(interp, scen, call, out)
             return out
 
+        # library models that a contract's setup replaces (recording stubs for exec/eval/np.full/...) are local to this scenario: the table is
+        # restored afterwards, so that nothing leaks into the next task of the same worker process
+        from . import libspec as _L
+        saved_models = dict(_L._MODELS)
         try:
             results, stats = explore(run, scenario=scen, max_paths=max_paths)
         except OutOfSubset as ex:
             rep.out_of_subset.append(f'[{scen}] {ex}')
             continue
+        finally:
+            _L._MODELS.clear()
+            _L._MODELS.update(saved_models)
         rep.paths += stats['paths']
         rep.scenarios[scen] = stats
         for ctx, out in results:
